@@ -37,7 +37,16 @@ NAMED = [
     ("keys", "\"quoted key\": 1\n? complex\n: {z: 2}\nplain: [x]\n"),
     ("nested-block", "top:\n  mid:\n    leaf: 1\n    list:\n      - p: 1\n        q: 2\n      - r\n"),
     ("empty-containers", "e: {}\nf: []\ng:\n  h: {}\n"),
+    ("nested-anchors", "x: &x\n  p: &y 1\n  q: 2\nb: *x\nc: *y\n"),
+    ("anchored-seq", "base: &b\n  - &first {n: 1}\n  - two\ncopy: *b\nlast: *first\n"),
 ]
+
+# writes through an alias: the written copy is printed in full and re-declares the anchors inside it, so a later
+# alias of an inner anchor would resolve to the nearer (changed) declaration unless the writer drops the alias
+EXTRA_PROGRAMS = {
+    "nested-anchors": [".b.p = 9", ".x.p = 5", ".b.q = 9", "del(.x)", ".c = 7"],
+    "anchored-seq": [".copy[0].n |= . + 10", ".base[0].n = 3", ".copy[1] = \"2\""],
+}
 
 VALUES = ['5', '"0x2A"', '{"a":[1,{"b":null}]}', '["x",{"k":"v: w"}]', '{"deep":{"er":{"est":[[]]}}}', '"- dash"', '" lead"', '{}', '[]', '"multi\\nline"', 'true', '"#c"']
 
@@ -219,7 +228,7 @@ def rule_write(progs, tier, name="YQDOM(write)", n_quick=6, n_thorough=12, per_d
         crashed = False
         for nm, text, tree in items:
             data = text.encode("utf-8")
-            for prog in write_programs(tree, per_doc if not nm.startswith("gen-") else max(3, per_doc // 2)):
+            for prog in EXTRA_PROGRAMS.get(nm, []) + write_programs(tree, per_doc if not nm.startswith("gen-") else max(3, per_doc // 2)):
                 key = "%s:%s:%s" % (name, nm, prog)
                 npairs += 1
                 try:
